@@ -23,6 +23,7 @@ from collections.abc import Mapping
 from typing import Union
 
 from numpy import asarray
+from numpy import isfinite
 from numpy.linalg import norm
 from scipy.sparse.linalg import norm as spnorm
 
@@ -89,7 +90,11 @@ def compare_dict_of_arrays(
                 spnorm(value) if isinstance(value, sparse_classes) else norm(value)
             )
 
-            if norm_diff > tolerance * (1.0 + norm_ref):
+            # A non-finite difference (NaN or infinite input) is not within the
+            # tolerance.
+            if not (
+                isfinite(norm_diff) and norm_diff <= tolerance * (1.0 + norm_ref)
+            ):
                 return False
     else:
         for key, value in dict_of_arrays.items():
